@@ -579,9 +579,13 @@ func (r *Runner) writeEvidence() {
 		"wall_s":     time.Since(r.Start).Seconds(),
 		"violations": len(r.Viol),
 	}
-	os.MkdirAll(filepath.Join(verifDir(), "evidence"), 0o755)
+	evDir := filepath.Join(verifDir(), "evidence")
+	if d := os.Getenv("VERIF_EVIDENCE_DIR"); d != "" {
+		evDir = d // seed experiments write their evidence elsewhere; registered commands never set this
+	}
+	os.MkdirAll(evDir, 0o755)
 	data, _ := json.MarshalIndent(ev, "", " ")
-	os.WriteFile(filepath.Join(verifDir(), "evidence", spec.ID+".json"), data, 0o644)
+	os.WriteFile(filepath.Join(evDir, spec.ID+".json"), data, 0o644)
 }
 
 // modeB runs hand-written harnesses that live inside a package of the repository itself (they need its
